@@ -144,7 +144,9 @@ let run (path : string) =
            | _ -> failwith "lenv line") in
        let benv = { Gauge.be_farm = farms; be_recv = recvs; be_ext = xenvs; be_lend = lenvs } in
        let o = Gauge.Begin (now, benv) in
-       if not (Gauge.op_wf o) then cmpf "env.recv_nonneg" "true" "false";
+       (* the hypothesis op_wf of the custody theorems on the recorded environment: non-negative fee transfers,
+          every program's population consistent with its recorded total *)
+       if not (Gauge.op_wf o) then cmpf "env.op_wf" "true" "false";
        (* known-finding class met by this step (on the state it starts from); the class predicate re-runs the
           hook: skip it where it is false by definition (class 4 needs a lend program) *)
        let k4 = L.exists (fun (x : Gauge.ext) -> BinInt.Z.eqb x.Gauge.x_kind (zi 2)) m.Gauge.r_exts && Gauge.kf4_begin now benv m in
